@@ -37,4 +37,5 @@ func init() {
 		c.Flush(false)
 		c19System(c)
 	})
+	Register("C13", func(c *RunCtx) { c13Enumerate(c) })
 }
